@@ -153,6 +153,84 @@ def fixedLocalRate (D : List (List V)) (k : Nat) : Option (List (List Bool)) :=
 def maskIf (mv : Bool) (emb : List (List V)) (R : List (List Bool)) : List (List Bool) :=
   if mv then applyMask R (missingMask emb) else R
 
+/-! ### `threshold_std` and `normalize`: mean and variance of the stored series
+
+`self.time_series.std()` is the standard deviation of *all* entries of the `(n, d)`
+array (`ddof = 0`); `normalize_time_series` works column by column.  The model keeps
+the variance (a rational) and never takes a root: `d < s·σ` is decided in squared
+units (`Properties/C07.lean` proves over ℝ that this is the comparison with
+`s·√var`), and the normalisation is modelled where `√var` is rational
+(`ratSqrt?`; otherwise the outcome is `none`, "outside the exact model"). -/
+
+def sumV (l : List V) : V := l.foldl addV (some 0)
+
+/-- `ndarray.mean()`; NaN for an empty array or as soon as one entry is NaN -/
+def meanV (l : List V) : V :=
+  if l.isEmpty then none else (sumV l).map fun s => s / (l.length : Rat)
+
+def subV (a b : V) : V :=
+  match a, b with
+  | some x, some y => some (x - y)
+  | _, _ => none
+
+/-- `ndarray.var()` (`ddof = 0`): the mean of the squared deviations from the mean -/
+def varV (l : List V) : V :=
+  let mu := meanV l
+  meanV (l.map fun x => let d := subV x mu; mulV d d)
+
+/-- the square of `threshold_std * std` (`0` for `threshold_std ≤ 0`: the product is
+then `≤ 0` and no distance is below it); NaN when the variance is -/
+def stdThrSq (s : Rat) (var : V) : V :=
+  var.map fun v => if s ≤ 0 then 0 else s * s * v
+
+/-- `recurrence[distance < threshold] = 1` with the threshold given by its square:
+the Euclidean kernel is already in squared units, the other two distances (≥ 0) are
+squared for the comparison -/
+def thresholdSq (m : Metric) (D : List (List V)) (tsq : V) : List (List Bool) :=
+  D.map fun row => row.map fun d =>
+    match m with
+    | .euclidean => ltV d tsq
+    | _ => ltV (mulV d d) tsq
+
+/-- `RecurrencePlot.set_fixed_threshold_std`: `series` is the stored `(n, d)` array
+(before embedding), `emb` its state vectors -/
+def fixedThresholdStd (m : Metric) (series emb : List (List V)) (s : Rat) (mv : Bool) :
+    List (List Bool) :=
+  maskIf mv emb (thresholdSq m (distRP m emb) (stdThrSq s (varV series.flatten)))
+
+/-- exact square root of a natural number, if it is a perfect square -/
+def natSqrt? (n : Nat) : Option Nat :=
+  let r := n.sqrt
+  if r * r = n then some r else none
+
+/-- exact square root of a rational, if it has one -/
+def ratSqrt? (q : Rat) : Option Rat :=
+  if q < 0 then none else
+  match natSqrt? q.num.toNat, natSqrt? q.den with
+  | some a, some b => some ((a : Rat) / (b : Rat))
+  | _, _ => none
+
+/-- `x ↦ (x - mu) / sd` on samples (NaN stays NaN) -/
+def affV (mu sd : Rat) (x : V) : V := x.map fun x => (x - mu) / sd
+
+/-- one column of `normalize_time_series`: `col -= mean; if std != 0: col /= std`.
+`none`: the standard deviation is irrational (outside the exact model). -/
+def normalizeCol (col : List V) : Option (List V) :=
+  match meanV col, varV col with
+  | some mu, some v =>
+    if v = 0 then some (col.map (affV mu 1))
+    else (ratSqrt? v).map fun sd => col.map (affV mu sd)
+  | _, _ => some (col.map fun _ => none)      -- NaN mean / std: the whole column is NaN
+
+/-- column `j` of an `(n, d)` array -/
+def colOf (series : List (List V)) (j : Nat) : List V := series.map fun r => r.getD j none
+
+/-- `normalize_time_series` on an `(n, d)` array (all columns) -/
+def normalizeSeries (series : List (List V)) : Option (List (List V)) :=
+  let d := (series.headD []).length
+  ((List.range d).mapM fun j => normalizeCol (colOf series j)).map fun cols =>
+    tab series.length d fun i j => (cols.getD j []).getD i none
+
 /-! ### adaptive neighbourhood size (`_set_adaptive_neighborhood_size`)
 
 The matrix under construction is a function (entries are only ever set to 1);
@@ -261,6 +339,38 @@ def isrm (Nx Ny : Nat) (Rx Ry CR : List (List Bool)) : Option (List (List Bool))
       else
         if j < Nx then (CR.getD j []).getD (i - Nx) false
         else (Ry.getD (i - Nx) []).getD (j - Nx) false)
+  else none
+
+/-! ### slice assignment `M[rlo:rhi, clo:chi] = B` (the assembly as the code writes it; the
+slice bounds are generated from the source, `RecurrenceObjects.isrmParts`) -/
+
+/-- a slot `M[rlo:rhi, clo:chi]` of a 2-D slice assignment -/
+structure Slot where
+  rlo : Int
+  rhi : Int
+  clo : Int
+  chi : Int
+
+def Slot.r0 (s : Slot) (n : Nat) : Nat := pyBound s.rlo n
+def Slot.r1 (s : Slot) (n : Nat) : Nat := pyBound s.rhi n
+def Slot.c0 (s : Slot) (n : Nat) : Nat := pyBound s.clo n
+def Slot.c1 (s : Slot) (n : Nat) : Nat := pyBound s.chi n
+
+def Slot.has (s : Slot) (n i j : Nat) : Bool :=
+  decide (s.r0 n ≤ i ∧ i < s.r1 n ∧ s.c0 n ≤ j ∧ j < s.c1 n)
+
+/-- the block has exactly the shape of the slot (NumPy would otherwise broadcast or raise) -/
+def Slot.fits (s : Slot) (n : Nat) (B : List (List Bool)) : Bool :=
+  B.length == s.r1 n - s.r0 n && B.all (·.length == s.c1 n - s.c0 n)
+
+/-- `M = np.zeros((n, n)); M[slot₀] = B₀; M[slot₁] = B₁; …` — later assignments win;
+`none` = a block does not have the shape of its slot -/
+def assemble (n : Nat) (parts : List (Slot × List (List Bool))) : Option (List (List Bool)) :=
+  if parts.all (fun p => p.1.fits n p.2) then
+    some (tab n n fun i j =>
+      match parts.reverse.find? (fun p => p.1.has n i j) with
+      | some p => (p.2.getD (i - p.1.r0 n) []).getD (j - p.1.c0 n) false
+      | none => false)
   else none
 
 /-! ### network adjacency: `A = R.copy(); A.flat[::stride] = 0` -/
